@@ -17,7 +17,8 @@ sys.path.insert(0, os.path.dirname(HERE))
 # property -> list of (module, function) concrete checks
 REGISTRY = {
     "C02": [("harness.c_itertools", "check_exactly_once"),
-            ("harness.c_iteration", "check_exactly_once_interfaces")],
+            ("harness.c_iteration", "check_exactly_once_interfaces"),
+            ("harness.c_iteration", "check_transform_and_live_handle")],
     "C03": [("harness.c_iteration", "check_order")],
     "C01": [("harness.c_writers", "check_roundtrip")],
     "C10": [("harness.c_writers", "check_shard_sizes"),
